@@ -22,7 +22,7 @@ def describe():
     return {
         "functions": ["qualtrim.pyx:quality_trim_index", "qualtrim.pyx:nextseq_trim_index",
                       "modifiers.py:QualityTrimmer.__call__", "modifiers.py:NextseqQualityTrimmer.__call__", "cli.py:parse_cutoffs"],
-        "bounds": {"quick": {"read_length": "0..8", "quality_chars": "33..126 (base 33) / 64..126 (base 64)", "cutoffs": "any int in [-2^20, 2^20]", "bases": "A,C,G,T,N,g"},
+        "bounds": {"quick": {"read_length": "0..9", "quality_chars": "33..126 (base 33) / 64..126 (base 64)", "cutoffs": "any int in [-2^20, 2^20]", "bases": "A,C,G,T,N,g"},
                    "thorough": {"read_length": "0..12", "quality_chars": "33..126", "cutoffs": "any int in [-2^20, 2^20]", "bases": "A,C,G,T,N,g"}},
         "outside_bounds": ["reads longer than the stated length", "quality characters outside 33..126 (non-printable / non-ASCII: the kernel raises ValueError for non-1-byte strings)",
                            "cut-offs beyond +-2^20 (int overflow of the running sum is excluded by interval analysis inside the bound)"],
@@ -35,7 +35,7 @@ def describe():
 
 
 def jobs(tier, seed):
-    N = 8 if tier == "quick" else 12
+    N = 9 if tier == "quick" else 12
     out = []
     for n in range(0, N + 1):
         for base in (33, 64):
@@ -141,14 +141,15 @@ class RecView:
 def run_job(job):
     J = Job(job)
     fn = job["fn"]
+    tmo = 600000 if job.get("tier") == "thorough" else 90000
     if fn == "qti":
-        return run_paths(J, lambda ctx: path_qti(J, ctx, job["n"], job["base"]))
+        return run_paths(J, lambda ctx: path_qti(J, ctx, job["n"], job["base"]), timeout_ms=tmo)
     if fn == "nextseq":
-        return run_paths(J, lambda ctx: path_nextseq(J, ctx, job["n"], job["base"]))
+        return run_paths(J, lambda ctx: path_nextseq(J, ctx, job["n"], job["base"]), timeout_ms=tmo)
     if fn == "shift":
-        return run_paths(J, lambda ctx: path_shift(J, ctx, job["n"]))
+        return run_paths(J, lambda ctx: path_shift(J, ctx, job["n"]), timeout_ms=tmo)
     if fn == "modifiers":
-        return run_paths(J, lambda ctx: path_modifiers(J, ctx, job["n"]))
+        return run_paths(J, lambda ctx: path_modifiers(J, ctx, job["n"]), timeout_ms=tmo)
     if fn == "parse":
         return run_parse(J)
     raise ValueError(fn)
